@@ -260,8 +260,8 @@ def generate(seed, tier):
         sequences(out, 3, ('host', 'svc'), ('soft', 'hard'))
         random_cases(out, rnd, 6000)
     else:
-        sequences(out, 3, (('host', 'svc')[seed % 2],), ('hard', ('ok', 'soft')[(seed // 2) % 2]))
-        random_cases(out, rnd, 2500)
+        sequences(out, 3, ('host', 'svc'), ('hard', ('ok', 'soft')[seed % 2]))
+        random_cases(out, rnd, 3000)
     return out
 
 
